@@ -118,6 +118,7 @@ int vp_sigaction_calls, vp_chdir_calls, vp_sigprocmask_calls;
 int vp_calls_pipe, vp_calls_open, vp_calls_fork, vp_calls_total;
 int vp_kill_calls, vp_waitpid_calls, vp_poll_calls;
 uint32_t vp_child_dfl;
+int8_t vp_sig_disp[32]; /* disposition of signal n in the running process: 0 default, 1 ignored, 2 handler */
 bool vp_std_present[3] = { true, true, true };
 int vp_rlim_mode;
 const char *vp_cwd = "/w";
@@ -1382,8 +1383,7 @@ int vp_sigaction(int sig, const struct sigaction *act, struct sigaction *old)
 {
   vp_calls_total++;
   vp_sigaction_calls++;
-  (void) old;
-  VP_ASSERT(C12, vp_in_child, "sigaction() called in the parent: dispositions are process-wide");
+  VP_ASSERT(C12, vp_in_child || act == NULL, "sigaction() changes a disposition in the parent: dispositions are process-wide");
   if (sig <= 0 || sig >= 65 || sig == SIGKILL || sig == SIGSTOP) {
     errno = EINVAL; /* documented answer, not a fault */
     return -1;
@@ -1393,11 +1393,20 @@ int vp_sigaction(int sig, const struct sigaction *act, struct sigaction *old)
     VP_ASSUME(e != EINVAL);
     return vp_fail(e);
   }
+  static int vp_handler_obj;
+  if (old != NULL && sig < 32) {
+    memset(old, 0, sizeof *old);
+    old->sa_handler = vp_sig_disp[sig] == 0 ? SIG_DFL
+                      : vp_sig_disp[sig] == 1 ? SIG_IGN
+                                              : (void (*)(int)) (void *) &vp_handler_obj;
+  }
   if (act != NULL && sig < 32) {
     if (act->sa_handler == SIG_DFL) {
       vp_child_dfl |= (uint32_t) 1 << sig;
+      vp_sig_disp[sig] = 0;
     } else {
       vp_child_dfl &= ~((uint32_t) 1 << sig);
+      vp_sig_disp[sig] = act->sa_handler == SIG_IGN ? 1 : 2;
     }
   }
   return 0;
